@@ -19,10 +19,27 @@ import (
 	"time"
 )
 
-const (
-	specDir = "/verif/spec"
-	tlaJar  = "/opt/veriftools/tla/tla2tools.jar:/opt/veriftools/tla/CommunityModules-deps.jar"
+const tlaJar = "/opt/veriftools/tla/tla2tools.jar:/opt/veriftools/tla/CommunityModules-deps.jar"
+
+// verifRoot is the directory holding spec/, harness/, known_findings.json, evidence/ ...: the working
+// directory of the check (a snapshot of /verif works as well as /verif itself).
+var (
+	verifRoot = "/verif"
+	specDir   = "/verif/spec"
+	cacheDir  = "/verif/.cache"
 )
+
+func initRoot() {
+	if r := os.Getenv("VERIF_ROOT"); r != "" {
+		verifRoot = r
+	} else if wd, err := os.Getwd(); err == nil {
+		if _, err := os.Stat(filepath.Join(wd, "spec", "Trace.tla")); err == nil {
+			verifRoot = wd
+		}
+	}
+	specDir = filepath.Join(verifRoot, "spec")
+	cacheDir = filepath.Join(verifRoot, ".cache")
+}
 
 // TLCResult is what one TLC run printed.
 type TLCResult struct {
